@@ -158,8 +158,10 @@ def dispatch(ctx, tk):
     sinks = [n for n, c in find_calls(fa, lambda c: c.a[0].k == "attr" and c.a[0].a[1] == "_getitem_bool")]
 
     def m(t):
-        if t.k == "cmp" and t.a[0] in ("==", "!=") and t.a[1].k == "attr" and t.a[1].a[1] == "dtype" and any(y.k == "global" and y.a[0] == "bool" for y in walk(t.a[2])):
-            return ("mask_is_bool", t.a[0] == "==")
+        if t.k == "cmp" and t.a[0] in ("==", "!="):
+            for l, r in ((t.a[1], t.a[2]), (t.a[2], t.a[1])):
+                if l.k == "attr" and l.a[1] == "dtype" and any(y.k == "global" and y.a[0] == "bool" for y in walk(r)):
+                    return ("mask_is_bool", t.a[0] == "==")
         return None
     check_guard(ctx, "C15.f", f, sinks, Formulas([m]), lambda A: A["mask_is_bool"], ["mask_is_bool"],
                 "a run-length mask is used only after refusing unless it is boolean", fa=fa)
